@@ -39,6 +39,21 @@ class Canon:
         self.memo[k] = r
         return r
 
+    def condbit(self, c):
+        """affine form (mask, const) of a condition that is a single bit compared with a constant, else None"""
+        d = c.decl().kind()
+        if d == z3.Z3_OP_NOT:
+            r = self.condbit(c.arg(0))
+            return None if r is None else (r[0], r[1] ^ 1)
+        if d in (z3.Z3_OP_EQ, z3.Z3_OP_DISTINCT) and c.num_args() == 2:
+            x, y = c.arg(0), c.arg(1)
+            if not z3.is_bv(x) or x.size() != 1: return None
+            fx, fy = self.bits(x)[0], self.bits(y)[0]
+            m = fx[0] ^ fy[0]; k = fx[1] ^ fy[1] ^ 1          # 1 when equal
+            if d == z3.Z3_OP_DISTINCT: k ^= 1
+            return (m, k)
+        return None
+
     def atom(self, key, w):
         a = self._id(key)
         return [(frozenset(((a, i),)), 0) for i in range(w)]
@@ -142,6 +157,15 @@ class Canon:
                 out.append((frozenset(((a, 0),)), 0))
             return out
         if d == z3.Z3_OP_ITE:
+            cb = self.condbit(ch[0])
+            a, b = self.bits(ch[1]), self.bits(ch[2])
+            if cb is not None and all(x[0] == y[0] for x, y in zip(a, b)):
+                # the arms differ by a constant: ite(c,a,b) = b xor c*(a xor b) is affine
+                out = []
+                for (ma, ca), (mb, cb_) in zip(a, b):
+                    if ca != cb_: out.append((mb ^ cb[0], cb_ ^ cb[1]))
+                    else: out.append((mb, cb_))
+                return out
             return self.atom(('ite', self.key(ch[0]), self.key(ch[1]), self.key(ch[2])), w)
         # anything else (uninterpreted applications, bvsub, bvneg, division, comparisons inside ite conditions ...): an atom
         params = tuple(t.params()) if hasattr(t, 'params') else ()
